@@ -48,6 +48,9 @@ fn main() {
             if let Ok(p) = std::env::var("TV_BIN_ALL") {
                 bins.insert("all".to_string(), p);
             }
+            if let Ok(p) = std::env::var("TV_BIN_TSAN") {
+                bins.insert("tsan".to_string(), p);
+            }
             let nworkers: u64 = arg(&args, "--workers").and_then(|s| s.parse().ok()).unwrap_or(16);
             let watchdog = Duration::from_secs(arg(&args, "--watchdog").and_then(|s| s.parse().ok()).unwrap_or(if tier == Tier::Quick { 600 } else { 7200 }));
             let a = ParentArgs { property: prop, tier, seed, nworkers, bins, this_flavour: FLAVOUR.into(), watchdog };
@@ -79,7 +82,13 @@ fn main() {
                 std::process::exit(2);
             };
             if rf.flavour != FLAVOUR {
-                let var = if rf.flavour == "nostd" { "TV_BIN_NOSTD" } else { "TV_BIN_ALL" };
+                let var = if rf.flavour == "nostd" {
+                    "TV_BIN_NOSTD"
+                } else if rf.flavour == "tsan" {
+                    "TV_BIN_TSAN"
+                } else {
+                    "TV_BIN_ALL"
+                };
                 if let Ok(bin) = std::env::var(var) {
                     let st = std::process::Command::new(bin).args(&args[1..]).status().expect("exec other flavour");
                     std::process::exit(st.code().unwrap_or(1));
